@@ -203,7 +203,8 @@ def match_known(v, known):
     for kf in known.get("open", []):
         if kf["property"] != v["prop"]:
             continue
-        if kf.get("oracle") and kf["oracle"] != v["oracle"]:
+        orc = kf.get("oracle")
+        if orc and (v["oracle"] not in orc if isinstance(orc, list) else orc != v["oracle"]):
             continue
         if kf.get("msg_regex") and not re.search(kf["msg_regex"], v.get("msg") or ""):
             continue
